@@ -88,3 +88,108 @@ package diff
 //@ modifies nothing
 //@ ensures len(result) <= 2 && vs_fresh(result)
 //@ ensures vs_all(func(i int) bool { return 0 <= i && i < len(result) ==> result[i].Change == AddedEnumValue || result[i].Change == DeletedEnumValue })
+
+//@ func getCompatibilityForChange
+//@ props C13 C15
+//@ safety
+//@ pure
+//@ ensures vs_mustBeBreaking(diffCode, where) ==> result == Breaking
+//@ ensures vs_has(compatibility.ForChange, diffCode) ==> result == compatibility.ForChange[diffCode]
+//@ ensures !vs_has(compatibility.ForChange, diffCode) && where == Request ==> result == compatibility.ForRequest[diffCode]
+//@ ensures !vs_has(compatibility.ForChange, diffCode) && where != Request ==> result == compatibility.ForResponse[diffCode]
+
+//@ func SpecDifferences.addDiff
+//@ props C13 C15
+//@ safety
+//@ modifies nothing
+//@ ensures len(result) == len(sd)+1 && vs_fresh(result)
+//@ ensures vs_all(func(i int) bool { return 0 <= i && i < len(sd) ==> result[i] == sd[i] })
+//@ ensures result[len(sd)].Code == diff.Code && result[len(sd)].DifferenceLocation == diff.DifferenceLocation && result[len(sd)].DiffInfo == diff.DiffInfo
+//@ ensures result[len(sd)].Compatibility == getCompatibilityForChange(diff.Code, vs_context(diff.DifferenceLocation))
+
+//@ func SpecDifferences.BreakingChangeCount
+//@ props C13 C15
+//@ safety
+//@ pure
+//@ ensures 0 <= result && result <= len(sd)
+//@ ensures (result > 0) == vs_any(func(i int) bool { return 0 <= i && i < len(sd) && sd[i].Compatibility == Breaking })
+//@ loop 1 invariant 0 <= count && count <= vs_done(1)
+//@ loop 1 invariant (count > 0) == vs_any(func(i int) bool { return 0 <= i && i < vs_done(1) && sd[i].Compatibility == Breaking })
+
+//@ func SpecDifferences.WarningChangeCount
+//@ props C15
+//@ safety
+//@ pure
+//@ ensures 0 <= result && result <= len(sd)
+//@ ensures (result > 0) == vs_any(func(i int) bool { return 0 <= i && i < len(sd) && sd[i].Compatibility == Warning })
+//@ loop 1 invariant 0 <= count && count <= vs_done(1)
+//@ loop 1 invariant (count > 0) == vs_any(func(i int) bool { return 0 <= i && i < vs_done(1) && sd[i].Compatibility == Warning })
+
+//@ func init#2
+//@ props C15
+//@ inline
+//@ loop 1 invariant vs_all(func(c SpecChangeCode) bool { return vs_visited(1, c) ==> vs_has(toIDSpecChangeCode, toStringSpecChangeCode[c]) && toIDSpecChangeCode[toStringSpecChangeCode[c]] == c })
+//@ loop 2 invariant vs_all(func(c Compatibility) bool { return vs_visited(2, c) ==> vs_has(toIDCompatibility, toStringCompatibility[c]) && toIDCompatibility[toStringCompatibility[c]] == c })
+//@ loop 2 invariant vs_globalinv_codeTable()
+
+//@ func CheckToFromPrimitiveType
+//@ props C12 C13 C14
+//@ modifies nothing
+//@ ensures vs_extends(diffs, result) && len(result) <= len(diffs)+1
+//@ ensures isPrimitive(type1) == isPrimitive(type2) ==> vs_same(result, diffs)
+//@ ensures isPrimitive(type1) != isPrimitive(type2) ==> len(result) == len(diffs)+1 && result[len(diffs)].Change == ChangedType
+
+//@ func CheckRefChange
+//@ props C12 C13 C14
+//@ modifies nothing
+//@ ensures vs_extends(diffs, diffReturn) && len(diffReturn) <= len(diffs)+1
+//@ ensures isRefType(type1) != isRefType(type2) ==> len(diffReturn) == len(diffs)+1 && diffReturn[len(diffs)].Change == ChangedType
+//@ ensures isRefType(type1) && isRefType(type2) && definitionFromRef(getRef(type1)) != definitionFromRef(getRef(type2)) ==> len(diffReturn) == len(diffs)+1 && diffReturn[len(diffs)].Change == RefTargetChanged
+//@ ensures !isRefType(type1) && !isRefType(type2) ==> vs_same(diffReturn, diffs)
+//@ ensures isRefType(type1) && isRefType(type2) && definitionFromRef(getRef(type1)) == definitionFromRef(getRef(type2)) ==> vs_same(diffReturn, diffs)
+
+//@ func (*SpecAnalyser).CompareProps
+//@ props C12 C13 C14
+//@ modifies nothing
+//@ requires type1 != nil && type2 != nil
+//@ ensures len(result) <= 8
+//@ ensures isPrimitive(type1) != isPrimitive(type2) ==> vs_hasCode(result, 0, ChangedType)
+//@ ensures vs_bothArrays(type1, type2) && type1.MaxItems != nil && type2.MaxItems != nil && *type2.MaxItems < *type1.MaxItems ==> vs_hasCode(result, 0, NarrowedType)
+//@ ensures vs_bothArrays(type1, type2) && type1.MaxItems == nil && type2.MaxItems != nil ==> vs_hasCode(result, 0, AddedConstraint)
+//@ ensures vs_bothArrays(type1, type2) && type1.MinItems != nil && type2.MinItems != nil && *type2.MinItems > *type1.MinItems ==> vs_hasCode(result, 0, NarrowedType)
+//@ ensures vs_bothArrays(type1, type2) && type1.MinItems == nil && type2.MinItems != nil ==> vs_hasCode(result, 0, AddedConstraint)
+//@ ensures vs_plainPrims(type1, type2) && vs_typeChanged(type1, type2) ==> vs_hasCode(result, 0, getTypeHierarchyChange(primitiveTypeString(type1.Type[0], type1.Format), primitiveTypeString(type2.Type[0], type2.Format)).Change)
+//@ ensures vs_plainPrims(type1, type2) && vs_stringT(type1) && vs_stringT(type2) && type1.MinLength != nil && type2.MinLength != nil && *type2.MinLength > *type1.MinLength ==> vs_hasCode(result, 0, NarrowedType)
+//@ ensures vs_plainPrims(type1, type2) && vs_stringT(type1) && vs_stringT(type2) && type1.MinLength == nil && type2.MinLength != nil ==> vs_hasCode(result, 0, AddedConstraint)
+//@ ensures vs_plainPrims(type1, type2) && vs_stringT(type1) && vs_stringT(type2) && type1.MaxLength != nil && type2.MaxLength != nil && *type2.MaxLength < *type1.MaxLength ==> vs_hasCode(result, 0, NarrowedType)
+//@ ensures vs_plainPrims(type1, type2) && vs_stringT(type1) && vs_stringT(type2) && type1.MaxLength == nil && type2.MaxLength != nil ==> vs_hasCode(result, 0, AddedConstraint)
+//@ ensures vs_plainPrims(type1, type2) && vs_stringT(type1) && vs_stringT(type2) && type1.Pattern != type2.Pattern ==> vs_hasCode(result, 0, ChangedType)
+//@ ensures vs_plainPrims(type1, type2) && !vs_typeChanged(type1, type2) && vs_numericT(type1) && !type1.ExclusiveMaximum && type2.ExclusiveMaximum ==> vs_hasCode(result, 0, NarrowedType)
+//@ ensures vs_plainPrims(type1, type2) && !vs_typeChanged(type1, type2) && vs_numericT(type1) && !type1.ExclusiveMinimum && type2.ExclusiveMinimum ==> vs_hasCode(result, 0, NarrowedType)
+//@ ensures vs_plainPrims(type1, type2) && !vs_typeChanged(type1, type2) && vs_numericT(type1) && vs_sameExclusive(type1, type2) && type1.Maximum != nil && type2.Maximum != nil && *type2.Maximum < *type1.Maximum ==> vs_hasCode(result, 0, NarrowedType)
+//@ ensures vs_plainPrims(type1, type2) && !vs_typeChanged(type1, type2) && vs_numericT(type1) && vs_sameExclusive(type1, type2) && type1.Maximum == nil && type2.Maximum != nil ==> vs_hasCode(result, 0, AddedConstraint)
+//@ ensures vs_plainPrims(type1, type2) && !vs_typeChanged(type1, type2) && vs_numericT(type1) && vs_sameExclusive(type1, type2) && type1.Minimum != nil && type2.Minimum != nil && *type2.Minimum > *type1.Minimum ==> vs_hasCode(result, 0, NarrowedType)
+//@ ensures vs_plainPrims(type1, type2) && !vs_typeChanged(type1, type2) && vs_numericT(type1) && vs_sameExclusive(type1, type2) && type1.Minimum == nil && type2.Minimum != nil ==> vs_hasCode(result, 0, AddedConstraint)
+
+//@ func (*SpecAnalyser).addTypeDiff
+//@ props C12 C13 C14
+//@ safety
+//@ modifies &sd.Diffs
+//@ requires sd != nil && diff != nil
+//@ ensures len(sd.Diffs) == old(len(sd.Diffs))+1
+//@ ensures vs_all(func(i int) bool { return 0 <= i && i < old(len(sd.Diffs)) ==> sd.Diffs[i] == old(sd.Diffs[i]) })
+//@ ensures sd.Diffs[old(len(sd.Diffs))].Code == diff.Change && sd.Diffs[old(len(sd.Diffs))].DifferenceLocation == location
+//@ ensures sd.Diffs[old(len(sd.Diffs))].Compatibility == getCompatibilityForChange(diff.Change, vs_context(location))
+
+//@ func (*SpecAnalyser).compareDescripton
+//@ props C12 C13 C14
+//@ safety
+//@ modifies &sd.Diffs
+//@ requires sd != nil
+//@ ensures desc1 == desc2 ==> len(sd.Diffs) == old(len(sd.Diffs))
+//@ ensures desc1 != desc2 ==> len(sd.Diffs) == old(len(sd.Diffs))+1
+//@ ensures vs_all(func(i int) bool { return 0 <= i && i < old(len(sd.Diffs)) ==> sd.Diffs[i] == old(sd.Diffs[i]) })
+//@ ensures desc1 != desc2 ==> sd.Diffs[old(len(sd.Diffs))].DifferenceLocation == location && vs_descriptionCode(sd.Diffs[old(len(sd.Diffs))].Code)
+//@ ensures desc1 == "" && desc2 != "" ==> sd.Diffs[old(len(sd.Diffs))].Code == AddedDescripton
+//@ ensures desc1 != "" && desc2 == "" ==> sd.Diffs[old(len(sd.Diffs))].Code == DeletedDescripton
+//@ ensures @C14 desc1 != "" && desc2 != "" && desc1 != desc2 ==> sd.Diffs[old(len(sd.Diffs))].Code == ChangedDescripton
